@@ -298,7 +298,7 @@ Theorem lookup_arrays_not_truncated : forall l : list Z, snd (narrow l) = l.
 Proof. exact narrow_lossless. Qed.
 Print Assumptions lookup_arrays_not_truncated.
 
-(* ... for ANY threshold table whose rows admit only values that fit (the condition checked on the regenerated table) *)
+(* ... for ANY threshold table whose rows accept only values that fit (the condition checked on the regenerated table) *)
 Theorem narrow_any_sound_table : forall table eb l, forallb entry_ok table = true -> snd (narrow_gen table eb l) = l.
 Proof. exact narrow_gen_lossless. Qed.
 Print Assumptions narrow_any_sound_table.
